@@ -499,7 +499,7 @@ def domain_guard(chk, prog, refs=None):
     return n
 
 
-ALL = {"POSE-DIV": lambda chk, prog, files: pose_div(chk, prog, files), "UNIT-GUARD": lambda chk, prog, files: unit_guard(chk, prog, files), "PARAM-DEAD": param_dead, "SWAPPED-ARGS": swapped_args, "METHOD-TRUTH": method_truth, "VIEW-SWAP": view_swap,
+ALL = {"NO-PARAM-WRITE": lambda chk, prog, files: no_param_write(chk, prog, files), "ZERO-AS-MISSING": lambda chk, prog, files: zero_as_missing(chk, prog, files), "POSE-DIV": lambda chk, prog, files: pose_div(chk, prog, files), "UNIT-GUARD": lambda chk, prog, files: unit_guard(chk, prog, files), "PARAM-DEAD": param_dead, "SWAPPED-ARGS": swapped_args, "METHOD-TRUTH": method_truth, "VIEW-SWAP": view_swap,
        "MODULE-STATE": module_state, "SHADOW-REBIND": shadow_rebind, "CASE-MIXED": case_mixed, "INT-ALLOC": int_alloc}
 
 
@@ -545,6 +545,11 @@ def _lint_fixture_units(angle, deg=True):
     if deg:
         angle = angle * DEG2RAD
     return angle
+def _lint_fixture_zero(rate: float = None):
+    return rate or 7.5
+def lint_fixture_write(vec: _np.ndarray):
+    vec /= 2.0
+    return vec
 def _lint_fixture_alloc(p):
     out = _np.zeros_like(p)
     out[0] = p[0]/3
@@ -552,7 +557,7 @@ def _lint_fixture_alloc(p):
 '''
 FIXTURE_HOST = "ahrs/common/frames.py"
 # rule -> properties that own it (None = every property, on its anchor files)
-OWNERS = {"POSE-DIV": {"C03", "C04", "C05", "C13", "C02", "C07"}, "UNIT-GUARD": None, "PARAM-DEAD": None, "SWAPPED-ARGS": None, "METHOD-TRUTH": None, "VIEW-SWAP": None, "INT-ALLOC": None, "CASE-MIXED": None,
+OWNERS = {"NO-PARAM-WRITE": {"C01", "C02", "C03", "C04", "C06", "C07", "C09", "C10", "C12", "C13", "C18", "C20"}, "ZERO-AS-MISSING": None, "POSE-DIV": {"C03", "C04", "C05", "C13", "C02", "C07"}, "UNIT-GUARD": None, "PARAM-DEAD": None, "SWAPPED-ARGS": None, "METHOD-TRUTH": None, "VIEW-SWAP": None, "INT-ALLOC": None, "CASE-MIXED": None,
           "SHADOW-REBIND": None,
           # process-wide hidden state only contradicts properties that promise repeatability / isolation / history independence
           "MODULE-STATE": {"C06", "C15", "C19"}}
@@ -793,4 +798,86 @@ def pose_div(chk, prog, files):
                         "`%s` is a pose-dependent quantity with no dominating non-zero guard: it vanishes for some attitude (an axis exactly vertical, a half-turn ...) and the "
                         "result is NaN there; every other divisor of this function is a literal, a norm or a guarded value" % div, line=node.lineno)
     chk.counts["POSE-DIV.divisions"] = chk.counts.get("POSE-DIV.divisions", 0) + n
+    return n
+
+
+# ------------------------------------------------------------------------------------------------------- ZERO-AS-MISSING
+def zero_as_missing(chk, prog, files):
+    """`p or DEFAULT` (or `kwargs.get('p') or DEFAULT`) for a parameter annotated as a number: 0 / 0.0 is falsy, so a caller who passes zero
+    silently gets DEFAULT.  Only reported when DEFAULT is not itself zero (otherwise nothing changes)."""
+    n = 0
+    for f in _funcs(prog, files):
+        a = f.node.args
+        numeric = set()
+        for p in a.posonlyargs + a.args + a.kwonlyargs:
+            ann = ast.unparse(p.annotation) if p.annotation is not None else ""
+            if any(t in ann for t in ("float", "int")) and "bool" not in ann and "str" not in ann and "ndarray" not in ann and "list" not in ann.lower():
+                numeric.add(p.arg)
+        for x in ast.walk(f.node):
+            if isinstance(x, ast.BoolOp) and isinstance(x.op, ast.Or) and len(x.values) == 2:
+                first, dflt = x.values
+                who = None
+                if isinstance(first, ast.Name) and first.id in numeric:
+                    who = first.id
+                elif isinstance(first, ast.Call) and ast.unparse(first.func).endswith("kwargs.get") and len(first.args) == 1 and isinstance(first.args[0], ast.Constant):
+                    who = "kwargs[%r]" % first.args[0].value
+                    if not isinstance(dflt, (ast.Constant, ast.Name, ast.Attribute)) or (isinstance(dflt, ast.Constant) and not isinstance(dflt.value, (int, float))):
+                        who = None
+                if who is None:
+                    continue
+                n += 1
+                val = _const_value(prog, f, dflt)
+                if val == 0:
+                    continue
+                chk.finding("ZERO-AS-MISSING", f.module.rel, f.qname, "%s or %s" % (who, ast.unparse(dflt)[:40]),
+                            "`%s` treats a numeric argument of 0 as `not given` and substitutes %s: an explicitly requested zero (no flattening, no rotation, zero noise ...) is silently replaced"
+                            % (ast.unparse(x)[:70], ast.unparse(dflt)[:40]), line=x.lineno)
+    chk.counts["ZERO-AS-MISSING.sites"] = chk.counts.get("ZERO-AS-MISSING.sites", 0) + n
+    return n
+
+
+def _const_value(prog, f, node):
+    if isinstance(node, ast.Constant) and isinstance(node.value, (int, float)) and not isinstance(node.value, bool):
+        return node.value
+    if isinstance(node, ast.Name):
+        r = f.module.resolve_name(node.id)
+        if isinstance(r, tuple) and r and r[0] == "assign":
+            v = r[3]
+            v = getattr(v, "value", v)
+            if isinstance(v, ast.Constant) and isinstance(v.value, (int, float)):
+                return v.value
+    return None
+
+
+# -------------------------------------------------------------------------------------------------------- NO-PARAM-WRITE
+def no_param_write(chk, prog, files):
+    """the ownership rule of C19 (flow-sensitive may-alias analysis with callee summaries), restricted to the public callables of the given files:
+    an in-place write that reaches a caller-owned array also changes what the *same* call sequence computes next (neighbour rows, second call)"""
+    from .flow import Alias
+    from props.c19 import is_public, array_params, uses_as_array
+    alias = Alias(prog)
+    n = 0
+    for f in _funcs(prog, files):
+        if not is_public(f) or f.is_setter:
+            continue
+        n += 1
+        s = alias.summary(f)
+        ap = array_params(f)
+        for ph, recs in sorted(s.mut.items(), key=lambda kv: str(kv[0])):
+            if ph[0] == "param":
+                if ph[1] not in ap:
+                    continue
+                if ap[ph[1]] is None and not uses_as_array(f, ph[1]) and not any(r["path"] for r in recs):
+                    continue
+                who = "parameter `%s`" % ph[1]
+            elif ph[0] == "kw":
+                who = "keyword argument `%s`" % ph[1]
+            else:
+                continue
+            for r in recs:
+                inner = r["path"][-1] if r["path"] else r
+                via = " via " + " -> ".join(p["func"].split("::")[1] for p in r["path"]) if r["path"] else ""
+                chk.finding("NO-PARAM-WRITE", f.module.rel, f.qname, "%s: %s" % (ph[1], inner["stmt"]),
+                            "in-place write reaches the caller's %s%s (%s)" % (who, via, r["what"]), line=inner.get("line") or r["line"])
+    chk.counts["NO-PARAM-WRITE.callables"] = chk.counts.get("NO-PARAM-WRITE.callables", 0) + n
     return n
